@@ -5987,6 +5987,20 @@ func (p *Prog) nothingBeforeTheLock() []Ob {
 					locks = append(locks, c)
 					lockBlocks[b] = true
 				}
+				// or a small helper that takes the lock (R15 judges it)
+				if g := c.Common().StaticCallee(); g != nil && inModule(g) && g.Blocks != nil {
+					for _, gb := range g.Blocks {
+						for _, gi := range gb.Instrs {
+							if gc, ok := gi.(*ssa.Call); ok {
+								switch flockOp(gc.Common()) {
+								case "TryLock", "TryRLock", "Lock", "RLock", "TryLockContext", "TryRLockContext":
+									locks = append(locks, c)
+									lockBlocks[b] = true
+								}
+							}
+						}
+					}
+				}
 			}
 		}
 	}
